@@ -45,9 +45,12 @@ static void *main_fake_stack;
 static const void *main_stack_bottom; static size_t main_stack_size;
 static uint64_t (*state_fn)(void);
 int vp_sched_active;
+int vp_sync_points = 1;      /* lock/unlock/trylock are scheduling points (switch off where locks are never contended) */
 void (*vp_atomic_hook)(const volatile void *addr, int is_store, int mo);
 int (*vp_access_filter)(const volatile void *addr, int size, int is_write);
 uint64_t (*vp_value_canon)(uint64_t v);
+int (*vp_idle_hook)(void);                  /* nobody can run: may advance virtual time; returns 1 if something changed */
+void (*vp_switch_hook)(int from, int to);   /* called right before control moves to another coroutine (or main, -1) */
 
 void vp_set_state_fn(uint64_t (*fn)(void)) { state_fn = fn; }
 int vp_co_self(void) { return cur; }
@@ -61,7 +64,7 @@ void vp_sched_reset(void)
 {
 	int i;
 	for (i = 0; i < VP_MAXCO; i++) { CO[i].st = CO_FREE; CO[i].local = 0; CO[i].ready = NULL; }
-	nco = 0; cur = -1; aborted = 0; vp_sched_active = 0;
+	nco = 0; cur = -1; aborted = 0; vp_sched_active = 0; vp_sync_points = 1;
 	vp_sync_reset();
 }
 
@@ -72,6 +75,7 @@ static void switch_to(int to)
 	ucontext_t *tc = to < 0 ? &main_ctx : &CO[to].ctx;
 	void **fsave = from < 0 ? &main_fake_stack : &CO[from].fake_stack;
 	if (from == to) return;
+	if (vp_switch_hook) vp_switch_hook(from, to);
 	if (from >= 0) CO[from].saved_errno = errno; else main_errno = errno;
 	cur = to;
 #ifdef VP_ASAN
@@ -141,6 +145,8 @@ static void reschedule(int cost_if_self_enabled, const char *tag)
 {
 	int en[VP_MAXCO], n = 0, i, c, self = cur, self_enabled;
 	if (state_fn && !vp_replaying() && vp_visited(full_key())) { aborted = 1; switch_to(-1); vp_broken("aborted coroutine resumed"); }
+again:
+	n = 0;
 	self_enabled = (self >= 0 && CO[self].st == CO_RUNNABLE);
 	if (self_enabled) en[n++] = self;
 	for (i = 0; i < nco; i++) {
@@ -149,9 +155,10 @@ static void reschedule(int cost_if_self_enabled, const char *tag)
 		else if (CO[i].st == CO_BLOCKED && CO[i].ready(CO[i].ready_arg)) en[n++] = i;
 	}
 	if (self >= 0 && !self_enabled && CO[self].st == CO_BLOCKED && CO[self].ready(CO[self].ready_arg)) {
-		/* became ready in the meantime (cannot happen on one thread, kept for safety) */
+		/* the condition this coroutine waits for holds already (e.g. its deadline passed) */
 		en[n++] = self;
 	}
+	if (n == 0 && vp_idle_hook && vp_idle_hook()) goto again;
 	if (n == 0) {
 		char msg[400]; int l = 0;
 		for (i = 0; i < nco; i++) if (CO[i].st == CO_BLOCKED) l += snprintf(msg + l, sizeof msg - l, " %s waits for %s;", CO[i].name, CO[i].blocked_on);
@@ -201,6 +208,11 @@ void vp_co_exit(void)
 			if (CO[i].st == CO_RUNNABLE) en[n++] = i;
 			else if (CO[i].st == CO_BLOCKED && CO[i].ready(CO[i].ready_arg)) en[n++] = i;
 		}
+		if (n == 0 && vp_idle_hook) {
+			int live = 0;
+			for (i = 0; i < nco; i++) live += CO[i].st == CO_BLOCKED;
+			if (live && vp_idle_hook()) continue;
+		}
 		if (n == 0) switch_to(-1);
 		else {
 			c = n > 1 ? vp_cost_choose(n, 0, "next after exit") : 0;
@@ -209,6 +221,13 @@ void vp_co_exit(void)
 		}
 		vp_broken("finished coroutine resumed");
 	}
+}
+
+/* the coroutine stops existing at the point where it is (process death): it is never resumed */
+void vp_co_kill(int id)
+{
+	if (id == cur) vp_co_exit();
+	if (id >= 0 && id < nco) CO[id].st = CO_DONE;
 }
 
 void vp_co_abort(void)
@@ -280,7 +299,7 @@ static int do_lock(void *m, const char *what)
 {
 	int i;
 	if (!m) vp_fail("lock operation on a NULL lock");
-	vp_point(what);
+	if (vp_sync_points) vp_point(what);
 	i = lk_find(m);
 	if (LK[i].owner == cur && cur >= 0) vp_fail("deadlock: %s locks a lock it already holds", vp_co_name(cur));
 	vp_block(lk_free, m, what);
@@ -292,7 +311,7 @@ static int do_trylock(void *m)
 {
 	int i;
 	if (!m) vp_fail("trylock on a NULL lock");
-	vp_point("trylock");
+	if (vp_sync_points) vp_point("trylock");
 	i = lk_find(m);
 	if (LK[i].owner != -2) { vp_local_mix(2); return EBUSY; }
 	LK[i].owner = cur; vp_local_mix(1);
@@ -302,7 +321,7 @@ static int do_unlock(void *m)
 {
 	int i;
 	if (!m) vp_fail("unlock of a NULL lock");
-	vp_point("unlock");
+	if (vp_sync_points) vp_point("unlock");
 	i = lk_find(m);
 	if (LK[i].owner == -2) vp_fail("unlock of a lock that is not held");
 	LK[i].owner = -2;
